@@ -1,9 +1,14 @@
 """C08 — the grid spatial index never omits a feature that is geometrically there
 (tracklib/core/spatial_index.py, isSegmentIntersects/cartesienne of tracklib/util/geometry.py).
 
-A case is one scenario: a collection (tracks, or the edges of a small network), a resolution, a margin,
-optional later `addFeature` calls, and a list of queries. The Lean model (Model/Grid.lean) runs the same
-scenario in one driver line. Two scalar modes:
+A case is one session on ONE index object: a collection (tracks, or the edges of a small network), a resolution, a
+margin, optional queries run right after construction (`pre`), optional later `addFeature` calls (`late`; through
+`Network.addEdge` when the index was made by `Network.createSpatialIndex`), and a list of queries run after them (the
+generators repeat the `pre` queries there: what a query left behind must not change a later answer). `entry` selects
+the front end (the constructor, `TrackCollection.createSpatialIndex(resolution, verbose)` — whose flag lands in the
+constructor's `margin` parameter —, `Network.createSpatialIndex(resolution, margin, verbose)`), `geo` the class of the
+query coordinates (GeoCoords instead of ENUCoords). The Lean model (Model/Grid.lean) is pure: it runs the session as
+one driver line for the state after construction and one for the state after the later additions. Two scalar modes:
   rat  every float operation of the Python is exact on the case (checked by `exact_case`: the float run of
        the constructor / __getCell is replayed next to a Fraction run and must agree); the model runs on Rat,
        the oracle is exact rational geometry with closed cells.
@@ -94,7 +99,7 @@ def case_points(case):
     pts = [p for f in case["feats"] for p in f]
     for num, t in case.get("late", []):
         pts += t
-    for q in case["queries"]:
+    for q in list(case["queries"]) + list(case.get("pre") or []):
         k = q[0]
         if k in ("pt", "npt", "nd", "getcell"):
             pts.append(q[1:3])
@@ -156,7 +161,7 @@ def _exact_case(case):
             if F(cf[0]) != cq[0] or F(cf[1]) != cq[1] or not (small_dyadic(cq[0]) and small_dyadic(cq[1])):
                 return False
     mn = min(iq[6], iq[7])
-    for q in case["queries"]:
+    for q in list(case["queries"]) + list(case.get("pre") or []):
         k = q[0]
         if k in ("units", "nd"):
             d = q[-1]
@@ -263,11 +268,21 @@ def segments(pts):
     return [(pts[k], pts[k + 1]) for k in range(len(pts) - 1)]
 
 
-def search_segments(case):
+def late_of(case):
+    """the later additions as (feature number, vertices): on a network indexed by Network.createSpatialIndex they go
+    through Network.addEdge, which numbers them itself (the running number of edges)"""
+    late = case.get("late") or []
+    if case.get("net") and (case.get("entry") or "ctor") == "create":
+        n0 = len(case["feats"])
+        return [[n0 + k, t] for k, (_, t) in enumerate(late)]
+    return late
+
+
+def search_segments(queries):
     """(query index, [segments]) of the unit < 0 segment/track neighbourhood searches: their answer depends on the
     cells of the QUERY segments, which are observed too so that the searches can be compared"""
     out = []
-    for n, q in enumerate(case["queries"]):
+    for n, q in enumerate(queries):
         if q[0] == "nseg" and q[5] < 0:
             out.append((n, [(q[1:3], q[3:5])]))
         elif q[0] == "ntrk" and q[1] < 0:
@@ -285,6 +300,7 @@ class P(Prop):
         (M, "TV.C08.straddle_necessary", "two closed segments sharing a point pass isSegmentIntersects (val1 <= 0 and val2 <= 0), touching ends and zero-length segments included"),
         (M, "TV.C08.cells_complete", "a point P of segment [c1,c2] in cell (i,j) — i <= Px < i+1, or i = csize-1 and i <= Px <= csize (last column closed on the upper border), same for j — implies (i,j) in __cellsCrossSegment(c1,c2), segments lying on the upper border included"),
         (M, "TV.C08.constructor_returns", "SpatialIndex(collection,res,margin) does not raise for a non-empty collection, margin >= 0 (0 included: vertices on the upper border), default or positive cell size, any bounding box (flat, single point, shorter than a cell)"),
+        (M, "TV.C08.collection_create_index", "TrackCollection.createSpatialIndex(resolution, verbose) is SpatialIndex(collection, resolution, margin) with margin = 1 (verbose=True) or 0 (verbose=False): the flag lands in the constructor's margin parameter; both are >= 0, the call returns and every other theorem applies"),
         (M, "TV.C08.extent_point_cell", "on a built index every point of the closed extent has a cell (min(floor idx, csize-1), min(floor idy, lsize-1)) inside the grid whose closed square contains it; only the last column/row is closed on the upper side"),
         (M, "TV.C08.index_complete", "after SpatialIndex(collection,res,margin>=0), every point of every segment of feature k is inside the extent and the cell containing it lists k (upper-border vertices included)"),
         (M, "TV.C08.point_query_complete", "request(q) for EVERY q of the closed extent does not raise and returns every feature having a segment point in the cell containing q"),
@@ -305,13 +321,16 @@ class P(Prop):
         "the unit = -1 incremental searches of neighborhood and the given-unit segment/track neighbourhoods are modelled and compared with the implementation, no theorem is stated about them (the property does not mention them)",
         "later addFeature calls (after construction) with vertices outside the extent are modelled and compared (the `continue` that keeps a stale coord1), no theorem is stated about them",
     ]
-    modelled = ("SpatialIndex.__init__ (extent from bbox + margin, explicit and default resolution, one column / row and a non-zero cell side on a degenerate axis), __getCell, "
+    modelled = ("TrackCollection.createSpatialIndex (its verbose flag becomes the constructor's margin) and Network.createSpatialIndex as front ends, Network.addEdge on an indexed network (= addFeature with the running edge number); "
+                "SpatialIndex.__init__ (extent from bbox + margin, explicit and default resolution, one column / row and a non-zero cell side on a degenerate axis), __getCell, "
                 "__cellsCrossSegment (index box clamped to the last column / row), __addSegment, addFeature, request (cell/point/segment/track; the point form with the clamped cell), __neighboringcells, "
                 "neighborhood (cell/point/segment/track; unit >= 0 and the incremental unit = -1 search), "
                 "groundDistanceToUnits, __addCellValuesInTAB of core/spatial_index.py; cartesienne, __eval, "
                 "isSegmentIntersects of util/geometry.py; TrackCollection/Network bbox as min/max of the vertices")
     trusted = ["correspondence relation: implementation ⊇ model on every returned list of features / cells and on cell contents (extras are permitted by the property; "
                "the theorems show the model omits nothing, so any superset omits nothing), equality on extent, cell size, units, None-ness and exceptions",
+               "sessions: the model is a pure function of (collection, later additions), run once for the state after construction and once for the state after the additions; that the implementation's answers "
+               "depend on nothing else (no cache, no state left by earlier queries) is exactly what the correspondence and the oracle test on one object",
                "mode flt: the Float instantiation of the model reproduces Python's doubles operation by operation; "
                "rounding is outside the theorems, the flt-mode oracle keeps a guard of 1e-7 cell around cell borders"]
     rule = ("exhaustive: every segment between points of a half-integer lattice through __cellsCrossSegment (coordinates beyond the 4 x 4 grid included: the clamp), every 2-vertex track of a "
@@ -319,16 +338,19 @@ class P(Prop):
             "random: 1-3 features (tracks or network edges) of 2-4 "
             "vertices on a half-integer lattice, square / non-square / default resolutions (the latter with aspect ratios from 1 to 400, i.e. down to one row or column; explicit cells up to larger than the extent), "
             "about 7 % degenerate extents (all vertices on one vertical or horizontal line, or at one point), margins 1/2, 1/20, 1/4, 0 (17 %), lattice queries of the closed extent, 10-35 % of them on its upper border "
-            "(points, segments, tracks, cells, neighbourhoods in units and from ground distances 0..grid size), later addFeature calls; "
+            "(points, segments, tracks, cells, neighbourhoods in units and from ground distances 0..grid size); sessions on one index object: 22 % of the cases add 1-2 features after construction "
+            "(addFeature, or Network.addEdge on a network indexed by Network.createSpatialIndex), most of those ask every query both before and after the additions, 20 % ask some query twice; "
+            "15 % of the indexes are made by TrackCollection.createSpatialIndex / Network.createSpatialIndex, 10 % of the sessions give query points as GeoCoords; "
             "plus a float stream with random coordinates (margin 0 included, a quarter of the query points are feature vertices). non-trivial = the index is built and at "
             "least one feature segment and one query are present")
 
     # ------------------------------------------------------------------ setup
     def setup(self):
-        from tracklib.core import ENUCoords, Obs, ObsTime, Track, TrackCollection
+        from tracklib.core import ENUCoords, GeoCoords, Obs, ObsTime, Track, TrackCollection
         from tracklib.core.spatial_index import SpatialIndex
         from tracklib.core.network import Network, Edge, Node
         self.E, self.Obs, self.T0, self.Track, self.TC = ENUCoords, Obs, ObsTime, Track, TrackCollection
+        self.G = GeoCoords
         self.SI, self.Network, self.Edge, self.Node = SpatialIndex, Network, Edge, Node
 
     def mk(self, pts):
@@ -349,26 +371,31 @@ class P(Prop):
         return self.TC([self.mk(pts) for pts in case["feats"]])
 
     # ------------------------------------------------------------------ implementation
-    def impl(self, case):
-        coll = self.collection(case)
+    def build_index(self, case, coll):
         res = None if case["res"] is None else (fl(case["res"][0]), fl(case["res"][1]))
-        si = self.SI(coll, resolution=res, margin=fl(case["margin"]), verbose=False)
-        try:
-            for num, pts in case.get("late", []):
-                si.addFeature(self.mk(pts), num)
-        except Exception as e:
-            return {"err": err_kind(e), "late": True}
-        out = {"info": [float(si.xmin), float(si.xmax), float(si.ymin), float(si.ymax), si.csize, si.lsize,
-                        float(si.dX), float(si.dY)]}
+        entry = case.get("entry") or "ctor"
+        if entry == "ctor":
+            return self.SI(coll, resolution=res, margin=fl(case["margin"]), verbose=False)
+        if case.get("net"):
+            coll.createSpatialIndex(res, fl(case["margin"]), False)
+        else:
+            # createSpatialIndex(resolution, verbose): the flag is what the constructor receives as its margin
+            if str(case["margin"]) not in ("0", "1"):
+                raise ValueError("TrackCollection.createSpatialIndex: the margin is the verbose flag")
+            coll.createSpatialIndex(res, verbose=(str(case["margin"]) == "1"))
+        return coll.spatial_index
+
+    def snapshot(self, si):
         grid = {}
         for i, col in enumerate(si.grid):
             for j, c in enumerate(col):
                 if c:
                     grid["%d:%d" % (i, j)] = sorted(c)
-        out["grid"] = grid
-        out["q"] = [self.run_query(si, q) for q in case["queries"]]
+        return grid
+
+    def search_cells(self, si, case, queries):
         sc = {}
-        for n, segs in search_segments(case):
+        for n, segs in search_segments(queries):
             cells = []
             for a, b in segs:
                 try:
@@ -379,11 +406,45 @@ class P(Prop):
                 except Exception as e:
                     cells.append({"err": err_kind(e)})
             sc[str(n)] = cells
-        out["scells"] = sc
+        return sc
+
+    def impl(self, case):
+        coll = self.collection(case)
+        si = self.build_index(case, coll)
+        info = [float(si.xmin), float(si.xmax), float(si.ymin), float(si.ymax), si.csize, si.lsize, float(si.dX), float(si.dY)]
+        geo = bool(case.get("geo"))
+        out = {}
+        pre = case.get("pre") or []
+        if pre:
+            # queries on the index as constructed, BEFORE the later additions (same object)
+            out["pre"] = {"info": info, "grid": self.snapshot(si), "q": [self.run_query(si, q, geo) for q in pre],
+                          "scells": self.search_cells(si, case, pre)}
+        try:
+            for num, pts in late_of(case):
+                if case.get("net") and (case.get("entry") or "ctor") == "create":
+                    # Network.addEdge on an indexed network registers the new edge in the index under its running number
+                    k = coll.getNumberOfEdges()
+                    if k != num:
+                        raise ValueError("late edge number %d, the network has %d edges" % (num, k))
+                    e = self.Edge("e%d" % k, self.mk(pts))
+                    a = self.Node("n%da" % k, self.E(fl(pts[0][0]), fl(pts[0][1]), 0.0))
+                    b = self.Node("n%db" % k, self.E(fl(pts[-1][0]), fl(pts[-1][1]), 0.0))
+                    coll.addEdge(e, a, b)
+                else:
+                    si.addFeature(self.mk(pts), num)
+        except ValueError:
+            raise
+        except Exception as e:
+            return {"err": err_kind(e), "late": True}
+        out["info"] = info
+        out["grid"] = self.snapshot(si)
+        out["q"] = [self.run_query(si, q, geo) for q in case["queries"]]
+        out["scells"] = self.search_cells(si, case, case["queries"])
         return out
 
-    def run_query(self, si, q):
-        E = self.E
+    def run_query(self, si, q, geo=False):
+        # request / neighborhood accept GeoCoords as well as ENUCoords (getX / getY are lon / lat)
+        E = self.G if geo else self.E
         try:
             k = q[0]
             if k == "cell":
@@ -414,7 +475,7 @@ class P(Prop):
                 cells = si._SpatialIndex__cellsCrossSegment((fl(q[1]), fl(q[2])), (fl(q[3]), fl(q[4])))
                 return sorted([int(c[0]), int(c[1])] for c in cells)
             if k == "getcell":
-                c = si._SpatialIndex__getCell(E(fl(q[1]), fl(q[2]), 0.0))
+                c = si._SpatialIndex__getCell(self.E(fl(q[1]), fl(q[2]), 0.0))
                 return None if c is None else [float(c[0]), float(c[1])]
             if k == "inter":
                 from tracklib.util import isSegmentIntersects
@@ -428,6 +489,8 @@ class P(Prop):
 
     # ------------------------------------------------------------------ model
     def requests(self, case):
+        """one driver line for the state after the later additions, preceded (when the session has `pre` queries) by one
+        for the state right after construction: the model is pure, the implementation runs both on one object"""
         exact = exact_case(case)
         if exact:
             num = lambda v: ratstr(fr(v))
@@ -438,27 +501,43 @@ class P(Prop):
         tr = lambda pts: ";".join("%s,%s" % (num(p[0]), num(p[1])) for p in pts) if pts else "_"
         feats = "|".join(tr(f) for f in case["feats"]) if case["feats"] else "_"
         res = "none" if case["res"] is None else "%s,%s" % (num(case["res"][0]), num(case["res"][1]))
-        late = "|".join("%d@%s" % (n, tr(t)) for n, t in case.get("late", [])) or "_"
-        qs = ["info", "grid"]
-        for q in case["queries"]:
-            k = q[0]
-            if k in ("cell", "ncell"):
-                qs.append(";".join([k] + [str(v) for v in q[1:]]))
-            elif k in ("npt", "nseg"):
-                qs.append(";".join([k] + [num(v) for v in q[1:-1]] + [str(q[-1])]))
-            elif k == "trk":
-                qs.append(";".join([k] + [num(v) for p in q[1] for v in p]))
-            elif k == "ntrk":
-                qs.append(";".join([k, str(q[1])] + [num(v) for p in q[2] for v in p]))
-            else:
-                qs.append(";".join([k] + [num(v) for v in q[1:]]))
-        for n, segs in search_segments(case):
-            for a, b in segs:
-                qs.append(";".join(["gcross", num(a[0]), num(a[1]), num(b[0]), num(b[1])]))
-        return ["C08.run %s %s %s %s %s %s" % (mode, feats, res, num(case["margin"]), late, "|".join(qs))]
+        if (case.get("entry") or "ctor") == "create" and not case.get("net"):
+            margin = "tc:%s" % case["margin"]          # TrackCollection.createSpatialIndex(res, verbose)
+        else:
+            margin = num(case["margin"])
+
+        def line(late_list, queries):
+            late = "|".join("%d@%s" % (n, tr(t)) for n, t in late_list) or "_"
+            qs = ["info", "grid"]
+            for q in queries:
+                k = q[0]
+                if k in ("cell", "ncell"):
+                    qs.append(";".join([k] + [str(v) for v in q[1:]]))
+                elif k in ("npt", "nseg"):
+                    qs.append(";".join([k] + [num(v) for v in q[1:-1]] + [str(q[-1])]))
+                elif k == "trk":
+                    qs.append(";".join([k] + [num(v) for p in q[1] for v in p]))
+                elif k == "ntrk":
+                    qs.append(";".join([k, str(q[1])] + [num(v) for p in q[2] for v in p]))
+                else:
+                    qs.append(";".join([k] + [num(v) for v in q[1:]]))
+            for n, segs in search_segments(queries):
+                for a, b in segs:
+                    qs.append(";".join(["gcross", num(a[0]), num(a[1]), num(b[0]), num(b[1])]))
+            return "C08.run %s %s %s %s %s %s" % (mode, feats, res, margin, late, "|".join(qs))
+        lines = []
+        if case.get("pre"):
+            lines.append(line([], case["pre"]))
+        lines.append(line(late_of(case), case["queries"]))
+        return lines
 
     def decode(self, case, replies):
-        r = replies[0]
+        out = self.decode_reply(case, case["queries"], replies[-1])
+        if case.get("pre") and "err" not in out:
+            out["pre"] = self.decode_reply(case, case["pre"], replies[0])
+        return out
+
+    def decode_reply(self, case, queries, r):
         if r == "bad-request":
             raise ValueError("bad-request")
         exact = exact_case(case)
@@ -468,10 +547,10 @@ class P(Prop):
         if r.startswith("err:"):
             return {"err": r}
         parts = r.split("|")
-        ss = search_segments(case)
+        ss = search_segments(queries)
         nextra = sum(len(segs) for _, segs in ss)
-        if len(parts) != len(case["queries"]) + 2 + nextra:
-            raise ValueError("reply has %d parts for %d queries" % (len(parts), len(case["queries"])))
+        if len(parts) != len(queries) + 2 + nextra:
+            raise ValueError("reply has %d parts for %d queries" % (len(parts), len(queries)))
         info = parts[0].split(",")
         out = {"info": [val(info[0]), val(info[1]), val(info[2]), val(info[3]), int(info[4]), int(info[5]), val(info[6]), val(info[7])]}
         grid = {}
@@ -483,13 +562,13 @@ class P(Prop):
         nats = lambda t: [] if t == "_" else sorted(int(v) for v in t.split(","))
         qo = []
         cellsof = lambda t: [] if t == "_" else sorted([int(c.split(":")[0]), int(c.split(":")[1])] for c in t.split(";"))
-        extra = parts[2 + len(case["queries"]):]
+        extra = parts[2 + len(queries):]
         sc, pos = {}, 0
         for n, segs in ss:
             sc[str(n)] = [None if t == "none" else {"err": t} if t.startswith("err:") else cellsof(t) for t in extra[pos:pos + len(segs)]]
             pos += len(segs)
         out["scells"] = sc
-        for q, t in zip(case["queries"], parts[2:2 + len(case["queries"])]):
+        for q, t in zip(queries, parts[2:2 + len(queries)]):
             k = q[0]
             if t.startswith("err:"):
                 qo.append({"err": t})
@@ -514,6 +593,15 @@ class P(Prop):
         return out
 
     def compare(self, case, impl_out, model_out):
+        if ("pre" in impl_out) != ("pre" in model_out):
+            return "session: impl=%s model=%s" % (str(impl_out)[:200], str(model_out)[:200])
+        if "pre" in impl_out:
+            m = self.compare_state(case, case["pre"], impl_out["pre"], model_out["pre"])
+            if m:
+                return "before the later additions: " + m
+        return self.compare_state(case, case["queries"], impl_out, model_out)
+
+    def compare_state(self, case, queries, impl_out, model_out):
         if "err" in impl_out or "err" in model_out:
             if impl_out.get("err") == model_out.get("err") and impl_out.get("late") == model_out.get("late"):
                 return None
@@ -544,7 +632,7 @@ class P(Prop):
             if isinstance(b, list) and isinstance(a, list):
                 return all(x in a for x in b)
             return close(a, b, self.rel_tol)
-        for n, (q, a, b) in enumerate(zip(case["queries"], io["q"], mo["q"])):
+        for n, (q, a, b) in enumerate(zip(queries, io["q"], mo["q"])):
             search = q[0] in ("ncell", "npt", "nseg", "ntrk") and (q[-1] if q[0] != "ntrk" else q[1]) < 0
             if search:
                 same_cells = io.get("scells", {}).get(str(n)) == mo.get("scells", {}).get(str(n))
@@ -567,6 +655,8 @@ class P(Prop):
             return False
         if fr(case["margin"]) < 0:
             return False
+        if (case.get("entry") or "ctor") == "create" and not case.get("net") and str(case["margin"]) not in ("0", "1"):
+            return False       # not a session this harness can run: TrackCollection.createSpatialIndex has no margin argument
         if case["res"] is None:
             return True
         rx, ry = fr(case["res"][0]), fr(case["res"][1])
@@ -580,6 +670,11 @@ class P(Prop):
         """None, or (tag, query index or None, message) for the first way `out` violates the property"""
         if not self.precondition(case):
             return None
+        if isinstance(out, dict) and "pre" in out:
+            # the index as constructed, queried before the later additions
+            r = self._failure(dict(case, late=[], queries=case["pre"]), out["pre"])
+            if r is not None:
+                return (r[0], r[1], "before the later additions: " + r[2])
         r = self._failure(case, out)
         return r
 
@@ -605,7 +700,7 @@ class P(Prop):
         for p in (p for _, f in feats for p in f):
             if not inside(p):
                 return ("grid", None, "vertex %s is outside the extent %s" % (p, out["info"][:4]))
-        feats += [(n, t) for n, t in case.get("late", []) if all(inside(p) for p in t)]
+        feats += [(n, t) for n, t in late_of(case) if all(inside(p) for p in t)]
         expected = {}
         for k, f in feats:
             for a, b in segments(f):
@@ -756,8 +851,13 @@ class P(Prop):
         """1-3 features of 2-4 vertices on a half-integer lattice, a configuration on which floats are exact"""
         for _ in range(40):
             margin = rng.choice(["1/2"] * 9 + ["1/20"] * 7 + ["1/4"] * 3 + ["0"] * 4)
+            net = rng.random() < 0.25
+            entry = "create" if rng.random() < 0.15 else "ctor"
+            tc_create = entry == "create" and not net
+            if tc_create:
+                margin = rng.choice(["0", "1"])      # TrackCollection.createSpatialIndex(res, verbose): the flag is the margin
             r = rng.random()
-            default = r < 0.08
+            default = r < 0.08 and not tc_create
             thin = default and rng.random() < 0.5
             if thin:
                 # default resolution on a thin extent (ordinary since 9a44198): long side 8 lattice units, short side
@@ -816,27 +916,45 @@ class P(Prop):
             else:
                 # non-square cells, up to larger than the extent on an axis (then one column / row)
                 res = [rng.choice([0.25, 0.5, 1, 2, 4, 8, 16]), rng.choice([0.25, 0.5, 1, 2, 4, 8, 16])]
-            case = {"kind": "lattice", "net": rng.random() < 0.25, "feats": feats, "res": res, "margin": margin, "late": [], "queries": []}
+            case = {"kind": "lattice", "net": net, "feats": feats, "res": res, "margin": margin, "late": [], "queries": []}
+            if entry != "ctor":
+                case["entry"] = entry
+            if rng.random() < 0.1:
+                case["geo"] = True
             tw = exact_twin(case)
             if tw in (None, "zerodiv"):
                 continue
             if res is not None and tw[4] * tw[5] > 1600:
                 continue
-            if rng.random() < 0.12:
+            if rng.random() < 0.22:
                 n0 = len(feats)
                 late = []
-                for _ in range(rng.randrange(1, 3)):
-                    num = rng.choice([n0, n0 + 1, 0])
-                    pts = [[float(tw[0] + F(1, 2) * rng.randrange(-2, int((tw[1] - tw[0]) * 2) + 2)),
-                            float(tw[2] + F(1, 2) * rng.randrange(-2, int((tw[3] - tw[2]) * 2) + 2))] for _ in range(rng.randrange(2, 5))]
+                for k in range(rng.randrange(1, 3)):
+                    num = rng.choice([n0, n0 + 1, 0]) if not (net and entry == "create") else n0 + k
+                    out_ = 0 if rng.random() < 0.6 else 2        # 60 %: every vertex inside the extent
+                    pts = [[float(tw[0] + F(1, 2) * rng.randrange(-out_, int((tw[1] - tw[0]) * 2) + out_ + 1)),
+                            float(tw[2] + F(1, 2) * rng.randrange(-out_, int((tw[3] - tw[2]) * 2) + out_ + 1))] for _ in range(rng.randrange(2, 5))]
                     late.append([num, pts])
                 case["late"] = late
             step = F(1, 2) if res is not None else min(tw[6], tw[7])
             case["queries"] = self.lattice_queries(tw, rng, feats, tier, step=step)
+            self.make_session(case, rng)
             if exact_case(case):
                 return case
         return {"kind": "lattice", "net": False, "feats": [[[0.0, 0.0], [4.0, 3.0]], [[1.0, 2.5], [2.0, 2.5], [4.0, 0.0]]], "res": [1, 1],
                 "margin": "1/2", "late": [], "queries": [["pt", 1.0, 1.0], ["nd", 0.0, 3.0, 2.5]]}
+
+    def make_session(self, case, rng):
+        """sequences on one index object: the queries are also run BEFORE the later additions (`pre`), so that whatever a
+        query leaves behind in the index (a cache, a shared list) faces a changed grid when the same query is asked
+        again; and some queries are simply asked twice"""
+        qs = case["queries"]
+        if not qs:
+            return
+        if (case.get("late") and rng.random() < 0.85) or rng.random() < 0.06:
+            case["pre"] = [list(q) for q in qs]
+        if rng.random() < 0.2:
+            case["queries"] = qs + [list(rng.choice(qs)) for _ in range(rng.randrange(1, 3))]
 
     def float_case(self, rng, tier):
         scale = rng.choice([1, 10, 100, 1000])
@@ -907,6 +1025,13 @@ class P(Prop):
             else:
                 qs.append(["cross", round(rng.uniform(0, 6), 2), round(rng.uniform(0, 6), 2), round(rng.uniform(0, 6), 2), round(rng.uniform(0, 6), 2)])
         case["queries"] = qs
+        if rng.random() < 0.15:
+            # later additions inside the extent (random vertices), the queries asked before and after them
+            n0 = len(feats)
+            case["late"] = [[n0 + k, [P_() for _ in range(rng.randrange(2, 4))]] for k in range(rng.randrange(1, 3))]
+        if case["net"] and rng.random() < 0.3:
+            case["entry"] = "create"
+        self.make_session(case, rng)
         return case
 
     BASE = {"kind": "cross", "net": False, "feats": [[[0.0, 0.0], [2.0, 2.0]]], "res": [1, 1], "margin": "1/2", "late": []}      # 4 x 4 cells
@@ -968,7 +1093,10 @@ class P(Prop):
         res = case["res"]
         t = {"kind": case["kind"], "mode": "rat" if exact_case(case) else "flt", "margin": str(case["margin"]),
              "res": "default" if res is None else "square" if fr(res[0]) == fr(res[1]) else "non-square",
-             "net": bool(case.get("net")), "nfeat": len(case["feats"]), "late": bool(case.get("late"))}
+             "net": bool(case.get("net")), "nfeat": len(case["feats"]), "late": bool(case.get("late")),
+             "session": ("pre+late" if case.get("pre") and case.get("late") else "pre" if case.get("pre") else "late" if case.get("late") else "-"),
+             "entry": ("ctor" if (case.get("entry") or "ctor") == "ctor" else "Network.createSpatialIndex" if case.get("net") else "TrackCollection.createSpatialIndex"),
+             "coords": "Geo" if case.get("geo") else "ENU"}
         bb = case_bbox(case)
         if bb is not None:
             fx, fy = bb[0] == bb[1], bb[2] == bb[3]
@@ -989,8 +1117,18 @@ class P(Prop):
                 yield dict(case, queries=[qs[k]])
             yield dict(case, queries=qs[:len(qs) // 2])
             yield dict(case, queries=qs[len(qs) // 2:])
+        if case.get("pre") and len(case["pre"]) > 1:
+            for k in range(len(case["pre"])):
+                yield dict(case, pre=[case["pre"][k]])
         if case.get("late"):
             yield dict(case, late=[])
+            if len(case["late"]) > 1:
+                for k in range(len(case["late"])):
+                    yield dict(case, late=[case["late"][k]])
+        if case.get("pre"):
+            yield dict(case, pre=[])
+        if case.get("geo"):
+            yield dict(case, geo=False)
         fs = case["feats"]
         if len(fs) > 1:
             for k in range(len(fs)):
@@ -1000,7 +1138,10 @@ class P(Prop):
                 for v in range(len(f)):
                     yield dict(case, feats=fs[:k] + [f[:v] + f[v + 1:]] + fs[k + 1:])
         if case.get("net"):
-            yield dict(case, net=False)
+            # (TrackCollection.createSpatialIndex takes no margin: back to the constructor)
+            yield dict(case, net=False, entry="ctor")
+        elif (case.get("entry") or "ctor") != "ctor" and str(case["margin"]) in ("0", "1"):
+            yield dict(case, entry="ctor")
 
     def mutate(self, case, rng):
         for _ in range(20):
